@@ -204,3 +204,5 @@ mod tests {
 
 #[cfg(feature = "verif")]
 pub use rotations::{verif_to_matrix, verif_to_wpr};
+#[cfg(feature = "verif")]
+pub use points_to_mesh::verif_points_to_mesh_eval;
